@@ -5,6 +5,7 @@
 import SugarModel.Model.Generic
 import SugarModel.Model.ListCmd
 import SugarModel.Model.HashCmd
+import SugarModel.Model.SetCmd
 namespace Sugar
 
 abbrev Handler := Ctx → List Bytes → Prog Res
@@ -30,7 +31,12 @@ def handlerTable : List (Bytes × Handler) := [
   (b "hset", handleHSet), (b "hsetnx", handleHSet), (b "hget", handleHGet), (b "hmget", handleHGet),
   (b "hstrlen", handleHStrLen), (b "hvals", handleHVals), (b "hrandfield", handleHRandField), (b "hlen", handleHLen),
   (b "hkeys", handleHKeys), (b "hincrby", handleHIncrBy), (b "hincrbyfloat", handleHIncrBy), (b "hgetall", handleHGetAll),
-  (b "hexists", handleHExists), (b "hdel", handleHDel)]
+  (b "hexists", handleHExists), (b "hdel", handleHDel),
+  (b "sadd", handleSAdd), (b "scard", handleSCard), (b "sdiff", handleSDiff false), (b "sdiffstore", handleSDiff true),
+  (b "sinter", handleSInter 0), (b "sintercard", handleSInter 2), (b "sinterstore", handleSInter 1),
+  (b "sismember", handleSIsMember), (b "smembers", handleSMembers), (b "smismember", handleSMIsMember),
+  (b "smove", handleSMove), (b "spop", handleSPop), (b "srandmember", handleSRandMember), (b "srem", handleSRem),
+  (b "sunion", handleSUnion false), (b "sunionstore", handleSUnion true)]
 
 def lookupHandler (n : Bytes) : List (Bytes × Handler) → Option Handler
   | [] => none
